@@ -13,9 +13,9 @@
    paragraphs, multi-line values, duplicate names, any blank-line layout, optional final newline),
    every indentation of at least one column or FieldNameLength, either empty-first-line setting,
    every one-line limit, every pair of comparators that depend only on names and values. *)
-From V.model Require Import Base Deb822Lex Deb822Parse Grammar Lossy LossySpec Deb822Edit LiveDoc Deb822Wrap WrapSpec ControlSpec.
+From V.model Require Import Base Deb822Lex Deb822Parse Grammar Lossy LossySpec Deb822Edit LiveDoc Deb822Wrap WrapSpec ControlSpec XGrammar XWrapSpec.
 From V.model Require RelAcc RelGrammar RelWrap RelWrapSpec.
-From V.proofs Require Import LiveDocP Deb822WrapP Deb822WrapInstP ControlWrapP WrapTokP ParseTokP.
+From V.proofs Require Import LiveDocP Deb822WrapP Deb822WrapInstP ControlWrapP WrapTokP ParseTokP ParseImageP XWrapP.
 
 (* ---------------------------------------------------------------- the property *)
 (* 1. All clauses, for the repaired code, without a formatter (C07_full is in WrapSpec.v). *)
@@ -544,9 +544,8 @@ Print Assumptions C07_tokens_paragraph_comparators.
        same paragraph / field, stable order); its paragraphs are those of the input in the sorted
        order, each with the fields p_out gives it -- by C07_error_free_paragraph the fields it had,
        names and values, in the stable order of the field sort --; a second application returns
-       the same tree.  (NOT proved for these documents: that the printed result parses strictly and
-       re-reads to the reported content -- that needs the reader's theorem C03 for layouts outside
-       Grammar.v; it is checked by the streams.) *)
+       the same tree.  (That the printed result parses strictly and re-reads to the reported content
+       is 13-14 below.) *)
 Theorem C07_error_free_is_token_doc : forall s t ind, from_str s = Ok t -> ind_pos ind -> token_doc ind t = true.
 Proof. exact error_free_is_token_doc. Qed.
 Check C07_error_free_is_token_doc : forall s t ind, from_str s = Ok t -> ind_pos ind -> token_doc ind t = true.
@@ -581,6 +580,147 @@ Check C07_error_free_paragraph : forall ind iel mll esort cs, forallb (pchild_ok
   items (Node PARAGRAPH (p_out ind iel mll esort cs)) =
     flat_map (fun g => epair (snd g)) (sort_opt (option_map on_snd esort) (fst (p_groups cs []))).
 Print Assumptions C07_error_free_paragraph.
+
+(* 13. THE IMAGE OF THE STRICT READER (proofs/ParseImageP.v; for every cone).  XGrammar.v describes
+       layouts d : xdoc -- Grammar.v's documents plus every layout choice the reader tolerates: LF or CR
+       after every line, blanks before the colon, comment lines and empty lines inside a value, a value
+       that begins on a continuation line or is absent.  [xwf_doc] is exactly what the lexer and
+       the parser establish (the token texts: names, blanks, one newline character, '#' comments, values
+       that do not start with a blank -- nor with '#' after an indentation; the grouping: an entry runs
+       while indented lines follow, a paragraph ends at an empty line or at the end, only the last line
+       may lack its newline).
+       accept: every well-formed layout is lexed to exactly its tokens and parsed, without an error, to
+       exactly its tree, whose text is the rendering and whose content is the layout's.
+       complete: whatever from_str returns is the tree of a well-formed layout of the text.
+       So [in_image] characterises the reader's results, and the reader is the inverse of [text] on them:
+       the lexer returns the leaves, the parser the same tree (same doc_items).  C03's documents are the
+       special case xdoc_of. *)
+Theorem C07_parse_image_accept : forall d, xwf_doc d = true ->
+  lex (xrender d) = Ok (xdoc_toks d) /\
+  from_str (xrender d) = Ok (xtree_of d) /\ text (xtree_of d) = xrender d /\ doc_items (xtree_of d) = xcontent d.
+Proof. exact parse_image_accept. Qed.
+Check C07_parse_image_accept : forall d, xwf_doc d = true ->
+  lex (xrender d) = Ok (xdoc_toks d) /\
+  from_str (xrender d) = Ok (xtree_of d) /\ text (xtree_of d) = xrender d /\ doc_items (xtree_of d) = xcontent d.
+Print Assumptions C07_parse_image_accept.
+
+Theorem C07_parse_image_complete : forall s t, from_str s = Ok t ->
+  exists d, xwf_doc d = true /\ xrender d = s /\ xtree_of d = t.
+Proof. exact parse_image_complete. Qed.
+Check C07_parse_image_complete : forall s t, from_str s = Ok t ->
+  exists d, xwf_doc d = true /\ xrender d = s /\ xtree_of d = t.
+Print Assumptions C07_parse_image_complete.
+
+Theorem C07_image : forall t,
+  (in_image t <-> exists s, from_str s = Ok t) /\
+  (in_image t -> lex (text t) = Ok (leaves t) /\ from_str (text t) = Ok t) /\
+  (in_image t -> forall ind, ind_pos ind -> token_doc ind t = true).
+Proof.
+  intros t. split; [apply in_image_iff|]. split; [apply image_reread|].
+  intros H ind Hi. apply in_image_iff in H. destruct H as (s & Hs). exact (error_free_is_token_doc s t ind Hs Hi).
+Qed.
+Check C07_image : forall t,
+  (in_image t <-> exists s, from_str s = Ok t) /\
+  (in_image t -> lex (text t) = Ok (leaves t) /\ from_str (text t) = Ok t) /\
+  (in_image t -> forall ind, ind_pos ind -> token_doc ind t = true).
+Print Assumptions C07_image.
+
+Theorem C07_grammar_in_image : forall d, wf_doc d = true ->
+  xwf_doc (xdoc_of d) = true /\ xrender (xdoc_of d) = render d /\ xtree_of (xdoc_of d) = tree_of d.
+Proof. exact grammar_in_image. Qed.
+Check C07_grammar_in_image : forall d, wf_doc d = true ->
+  xwf_doc (xdoc_of d) = true /\ xrender (xdoc_of d) = render d /\ xtree_of (xdoc_of d) = tree_of d.
+Print Assumptions C07_grammar_in_image.
+
+(* 14. The clauses 12 lacked, for EVERY error-free document, without a formatter, with no premise on
+       the comparators: the text of the reformatted tree R is the rendering of a well-formed layout D
+       -- so (13) the strict reader accepts it, lexes it to D's tokens and returns a tree of the image
+       with exactly the content R reports --; in D every continuation line is indented by the
+       requested width, nothing stands between a name and its colon, every line is terminated, and
+       (xsingle_blanks) comment lines and a paragraph are followed, repeatedly, by ONE empty line, comment
+       lines and a paragraph, with nothing after the last paragraph.  (R itself need not be in the image:
+       the reader puts comment lines that lead a paragraph in front of it and those that end the
+       document into the last paragraph, and reads "A : b" rebuilt on one line with one blank token.)
+       C07_error_free_full: all clauses together. *)
+Theorem C07_error_free_reread : forall s t ind iel mll psort esort, from_str s = Ok t -> ind_pos ind ->
+  let R := d_out ind iel mll psort esort (children t) in
+  doc_ws fixed psort (Some (para_ws fixed ind iel mll esort None)) t = Ok R /\
+  exists D, xwf_doc D = true /\ xrender D = text R /\
+    lex (text R) = Ok (xdoc_toks D) /\ from_str (text R) = Ok (xtree_of D) /\ doc_items (xtree_of D) = doc_items R /\
+    xdoc_canon ind D = true /\ xsingle_blanks SepStart D = true /\ xdoc_terminated D = true.
+Proof. exact error_free_reread. Qed.
+Check C07_error_free_reread : forall s t ind iel mll psort esort, from_str s = Ok t -> ind_pos ind ->
+  let R := d_out ind iel mll psort esort (children t) in
+  doc_ws fixed psort (Some (para_ws fixed ind iel mll esort None)) t = Ok R /\
+  exists D, xwf_doc D = true /\ xrender D = text R /\
+    lex (text R) = Ok (xdoc_toks D) /\ from_str (text R) = Ok (xtree_of D) /\ doc_items (xtree_of D) = doc_items R /\
+    xdoc_canon ind D = true /\ xsingle_blanks SepStart D = true /\ xdoc_terminated D = true.
+Print Assumptions C07_error_free_reread.
+
+Theorem C07_error_free_full : forall s t ind iel mll psort esort, from_str s = Ok t -> ind_pos ind ->
+  esort_ok ind iel mll esort -> psort_ok ind iel mll psort esort ->
+  let W := doc_ws fixed psort (Some (para_ws fixed ind iel mll esort None)) in
+  let R := d_out ind iel mll psort esort (children t) in
+  W t = Ok R /\
+  doc_items t = map (fun g => items (snd g)) (fst (d_groups (children t) [])) /\
+  doc_items R = map (fun g => items (Node PARAGRAPH (p_out ind iel mll esort (children (snd g)))))
+                    (sort_opt (option_map on_snd psort) (fst (d_groups (children t) []))) /\
+  (exists D, xwf_doc D = true /\ xrender D = text R /\ from_str (text R) = Ok (xtree_of D) /\ doc_items (xtree_of D) = doc_items R /\
+     xdoc_canon ind D = true /\ xsingle_blanks SepStart D = true /\ xdoc_terminated D = true) /\
+  W R = Ok R.
+Proof. exact error_free_full. Qed.
+Check C07_error_free_full : forall s t ind iel mll psort esort, from_str s = Ok t -> ind_pos ind ->
+  esort_ok ind iel mll esort -> psort_ok ind iel mll psort esort ->
+  let W := doc_ws fixed psort (Some (para_ws fixed ind iel mll esort None)) in
+  let R := d_out ind iel mll psort esort (children t) in
+  W t = Ok R /\
+  doc_items t = map (fun g => items (snd g)) (fst (d_groups (children t) [])) /\
+  doc_items R = map (fun g => items (Node PARAGRAPH (p_out ind iel mll esort (children (snd g)))))
+                    (sort_opt (option_map on_snd psort) (fst (d_groups (children t) []))) /\
+  (exists D, xwf_doc D = true /\ xrender D = text R /\ from_str (text R) = Ok (xtree_of D) /\ doc_items (xtree_of D) = doc_items R /\
+     xdoc_canon ind D = true /\ xsingle_blanks SepStart D = true /\ xdoc_terminated D = true) /\
+  W R = Ok R.
+Print Assumptions C07_error_free_full.
+
+(* the field step of 14, explicitly: what rebuild_value makes of ANY field the reader accepts
+   (XWrapP.x_ws_field: the case analysis of WrapSpec.rebuild_field with CR line ends, blanks before the
+   colon, comment and empty continuation lines): the text of the rebuilt entry is the text of that
+   field; it is well-formed and terminated, has the name and the value, and the canonical look *)
+Theorem C07_error_free_field : forall ind iel mll f more, ind_pos ind -> xwf_field f more = true ->
+  let f' := x_ws_field (xn ind f) iel mll f in
+  texts (children (e_out ind iel mll (xfield_tree f))) = tstr (xfield_toks f') /\
+  xwf_field f' true = true /\ x_name f' = x_name f /\ xfield_value f' = xfield_value f /\
+  xfield_canon (xn ind f) f' = true.
+Proof.
+  intros ind iel mll f more Hi Hwf f'. split; [apply e_out_xfield|].
+  assert (Hv : valid_name (x_name f) = true) by (unfold xwf_field in Hwf; repeat (apply andb_true_iff in Hwf; destruct Hwf as [Hwf ?]); exact Hwf).
+  split; [exact (x_ws_field_wf _ iel mll f more Hwf (xn_pos ind f Hi Hv))|].
+  destruct (x_ws_field_content (xn ind f) iel mll f more Hwf) as [A B]. split; [exact A|]. split; [exact B|apply x_ws_field_canon].
+Qed.
+Check C07_error_free_field : forall ind iel mll f more, ind_pos ind -> xwf_field f more = true ->
+  let f' := x_ws_field (xn ind f) iel mll f in
+  texts (children (e_out ind iel mll (xfield_tree f))) = tstr (xfield_toks f') /\
+  xwf_field f' true = true /\ x_name f' = x_name f /\ xfield_value f' = xfield_value f /\
+  xfield_canon (xn ind f) f' = true.
+Print Assumptions C07_error_free_field.
+
+(* 15. The same reading of the re-read clause for the control wrappers with the real relations
+       branch, on the domain of C07_control_real: the printed result is the rendering of a well-formed
+       layout, whose tree the strict reader returns, with the reported content (so the formatter's
+       output, too, stays inside the image of the reader). *)
+Theorem C07_control_real_image : forall c d, ind_ok c = true -> wf_doc d = true -> ctl_doc_ok (lift d) ->
+  let t1 := ltree_of (a_ws_doc (Some control_cmp) (a_ws_items c None (Some ctl_total)) (lift d)) in
+  real_control_ws c (tree_of d) = Ok t1 /\
+  exists D, xwf_doc D = true /\ xrender D = text t1 /\ from_str (text t1) = Ok (xtree_of D) /\ doc_items (xtree_of D) = doc_items t1.
+Proof.
+  intros c d Hc Hd Hok t1. destruct (real_control_proof c d Hc Hd Hok) as (A & _ & (t' & B & C) & _). split; [exact A|].
+  destruct (parse_image_complete _ _ B) as (D & W & E1 & E2). exists D. subst t'. repeat split; assumption.
+Qed.
+Check C07_control_real_image : forall c d, ind_ok c = true -> wf_doc d = true -> ctl_doc_ok (lift d) ->
+  let t1 := ltree_of (a_ws_doc (Some control_cmp) (a_ws_items c None (Some ctl_total)) (lift d)) in
+  real_control_ws c (tree_of d) = Ok t1 /\
+  exists D, xwf_doc D = true /\ xrender D = text t1 /\ from_str (text t1) = Ok (xtree_of D) /\ doc_items (xtree_of D) = doc_items t1.
+Print Assumptions C07_control_real_image.
 
 (* ---------------------------------------------------------------- non-vacuity *)
 Module Examples.
@@ -746,4 +886,31 @@ B:
 # t
 ")%list.
   Proof. eexists. split; [vm_compute; reflexivity|]. split; vm_compute; reflexivity. Qed.
+  (* the exotic text as a layout: well-formed, rendered to that text, read to its tree; the reformatted
+     text is read again without an error, to the content the reformatted tree reports; the premises of
+     C07_error_free_full hold (fields by name) *)
+  Definition xexotic : xdoc :=
+    [XPara (mk_xfield (s "Zz") (s " ") (s " ") (s "b") [mk_xcont 13 (s "  ") (PVal (s "c"))] (Some 13%N)) [];
+     XBlank 10;
+     XBComment (s " x") (Some 10%N);
+     XPara (mk_xfield (s "B") [] [] [] [mk_xcont 10 (s " ") (PCom (s "c")); mk_xcont 10 (s " ") PNone;
+                                        mk_xcont 10 [9%N] (PVal (s "d"))] (Some 10%N))
+           [XField (mk_xfield (s "Aa") [] [] (s "x") [] (Some 10%N))];
+     XBlank 10;
+     XBComment (s " t") None].
+  Example exotic_layout :
+    xwf_doc xexotic = true /\ xrender xexotic = exotic /\ from_str exotic = Ok (xtree_of xexotic) /\
+    doc_items (xtree_of xexotic) = [[(s "Zz", (s "b" ++ [10%N] ++ s "c")%list)]; [(s "B", s "d"); (s "Aa", s "x")]].
+  Proof. repeat split; vm_compute; reflexivity. Qed.
+  Example exotic_reread :
+    let R := d_out (Spaces 2) true (Some 10%N) None (Some by_name) (children (xtree_of xexotic)) in
+    ind_pos (Spaces 2) /\ esort_ok (Spaces 2) true (Some 10%N) (Some by_name) /\
+    psort_ok (Spaces 2) true (Some 10%N) None (Some by_name) /\
+    exists t', from_str (text R) = Ok t' /\ doc_items t' = doc_items R /\ t' <> R /\
+      doc_items R = [[(s "Zz", (s "b" ++ [10%N] ++ s "c")%list)]; [(s "Aa", s "x"); (s "B", s "d")]].
+  Proof.
+    intros R. split; [reflexivity|]. split; [apply C07_tokens_by_name|]. split; [exact I|].
+    eexists. split; [vm_compute; reflexivity|]. split; [vm_compute; reflexivity|]. split; [|vm_compute; reflexivity].
+    vm_compute. discriminate.
+  Qed.
 End Examples.
